@@ -507,4 +507,5 @@ func genC09(r *rng, tier string, emit func(string)) {
 			emit(fmt.Sprintf("issue2 %d", r.intn(1<<30)))
 		}
 	}
+	c09xGen(r, tier, emit) // extension codecs (kuext / bcext) against Model.X509Ext
 }
